@@ -1084,7 +1084,7 @@ pub fn gen_plan_opt(c: &Corpus, run_seed: u64, allow_stress: bool) -> (Plan, Pla
     // site mask: op boundaries always; hook sites and seam accessors a random subset per run
     let mut site_mask: u64 = (1u64 << sched::SITE_OP_BEGIN) | (1u64 << sched::SITE_OP_END);
     let hook_mode = rng.weighted(&[3, 6, 1]);
-    for s in 0..12u32 {
+    for s in 0..13u32 {
         let on = match hook_mode {
             0 => true,
             1 => rng.chance(7, 10),
@@ -1113,13 +1113,14 @@ pub fn gen_plan_opt(c: &Corpus, run_seed: u64, allow_stress: bool) -> (Plan, Pla
             // half of the aborts aim at a named site (the places where shared state would be live),
             // inside an operation whose query can reach that site
             let (nth, site) = if rng.chance(1, 2) {
-                let targets: [u32; 8] = [8, 9, 8, 9, 10, 6, 7, 5];
+                let targets: [u32; 9] = [8, 9, 8, 9, 10, 6, 7, 5, 12];
                 let site = *rng.pick(&targets);
                 let needles: &[&str] = match site {
                     8 | 9 => &["match(", "search("],
                     10 => &["in(", "_of("],
                     6 => &["?"],
                     7 => &["==", "!=", "<", ">"],
+                    12 => &["[", "."],
                     _ => &[".."],
                 };
                 let query_of = |o: &Op| -> Option<usize> {
@@ -1911,7 +1912,7 @@ pub fn drive(tier_name: &str, seed: u64, workers: usize) -> i32 {
 
 pub fn site_names() -> BTreeMap<u32, String> {
     let mut m = BTreeMap::new();
-    for (i, n) in ["PARSE_ENTER", "PARSE_TREE", "EVAL_ENTER", "SEGMENT", "SELECTOR", "DESCEND", "FILTER_CHILD", "CMP_MID", "REGEX_PRE", "REGEX_POST", "CUSTOM_PRE", "REFERENCE"].iter().enumerate() {
+    for (i, n) in ["PARSE_ENTER", "PARSE_TREE", "EVAL_ENTER", "SEGMENT", "SELECTOR", "DESCEND", "FILTER_CHILD", "CMP_MID", "REGEX_PRE", "REGEX_POST", "CUSTOM_PRE", "REFERENCE", "NODE"].iter().enumerate() {
         m.insert(i as u32, format!("hook:{}", n));
     }
     for (i, n) in simdoc::ACC_NAMES.iter().enumerate() {
